@@ -170,6 +170,39 @@ func (e *Env) resolve(name string) (binding, bool) {
 		if b, ok := fc.logical[name]; ok {
 			return b, true
 		}
+		// 0b. `rangeindex` in a counting loop `for i := 0; i < n; i++` that is not a range loop:
+		// the index of the last completed iteration is the counter minus one (so that rewriting a
+		// range loop as an index loop keeps its invariants meaningful)
+		if name == "rangeindex" && e.header != nil && e.header.Comment != "rangeindex.loop" {
+			var cnt *ssa.Phi
+			n := 0
+			for _, ins := range e.header.Instrs {
+				phi, ok := ins.(*ssa.Phi)
+				if !ok {
+					break
+				}
+				if bt, ok := phi.Type().Underlying().(*types.Basic); ok && bt.Info()&types.IsInteger != 0 && len(phi.Edges) == 2 {
+					isCounter := false
+					for _, ed := range phi.Edges {
+						if add, ok := ed.(*ssa.BinOp); ok && add.Op == token.ADD && add.X == ssa.Value(phi) {
+							if c, ok := add.Y.(*ssa.Const); ok && c.Int64() == 1 {
+								isCounter = true
+							}
+						}
+					}
+					if isCounter {
+						cnt = phi
+						n++
+					}
+				}
+			}
+			if n == 1 {
+				v := e.phiValue(cnt)
+				if v.K == KLeaf && v.T.Sort == SInt {
+					return binding{Leaf(Sub(v.T, IntLit(1))), specIntType}, true
+				}
+			}
+		}
 		// 1. phi of the header
 		if e.header != nil {
 			var found *ssa.Phi
